@@ -15,11 +15,12 @@ Two kinds of cases:
 import contextlib
 import signal
 
-from hypothesis import strategies as st
+import runner
+from dmgen import pick, text
 
 PID = "C35"
 LEVEL = "exploration"
-TECHNIQUE = "Hypothesis op-sequence generation vs. relational multimap specification; serialise/parse round trip with own parser"
+TECHNIQUE = "seeded-PRNG op-sequence generation vs. relational multimap specification; serialise/parse round trip with own parser"
 RULE = ("histories of <=12 ops (26 op kinds) over names {A,a,B,b,Set-Cookie,set-cookie,SET-COOKIE,x-y} as str/bytes with "
         "<=5 initial fields, plus valid field lists (<=8 fields, token names, field-content values); non-trivial = "
         "history touches >=2 spellings of one name, or a field list with repeated/case-variant names or OWS/obs-text "
@@ -28,63 +29,67 @@ ASSUMPTIONS = ["names are ASCII tokens (case-insensitivity is ASCII-only)",
                "equality is only asserted for equal field lists and for lists differing in values/order/length"]
 LEVEL_TEXT = "randomised operation histories checked step by step against a relational specification"
 LEVEL_NOTE = "specification written from the property statement and the Headers docstring"
-QUICK_N, THOROUGH_N = 64_000, 3_000_000
+QUICK_N, THOROUGH_N = 600_000, 20_000_000
 
 NAMES = ["A", "a", "B", "b", "Set-Cookie", "set-cookie", "SET-COOKIE", "x-y"]
 VALUES = ["1", "2", "3", "", "x, y", "a=b; Path=/", "\xe9", "\udcff", "v v", "0"]
 
-_name = st.tuples(st.sampled_from([0, 1, 0, 1, 0, 1, 2, 3, 4, 5, 6, 7]), st.booleans())       # (index, pass as bytes?)
-_value = st.tuples(st.integers(0, len(VALUES) - 1), st.booleans())
-_idx = st.integers(-3, 8)
-_field = st.tuples(st.sampled_from([0, 1, 0, 1, 2, 3, 4, 5, 6, 7]), st.integers(0, len(VALUES) - 1))
-
-_op = st.one_of(
-    st.tuples(st.just("getitem"), _name),
-    st.tuples(st.just("get"), _name),
-    st.tuples(st.just("contains"), _name),
-    st.tuples(st.just("setitem"), _name, _value),
-    st.tuples(st.just("setitem"), _name, _value),
-    st.tuples(st.just("add"), _name, _value),
-    st.tuples(st.just("add"), _name, _value),
-    st.tuples(st.just("insert"), _idx, _name, _value),
-    st.tuples(st.just("delitem"), _name),
-    st.tuples(st.just("pop"), _name, st.booleans()),
-    st.tuples(st.just("get_all"), _name),
-    st.tuples(st.just("set_all"), _name, st.lists(_value, max_size=3)),
-    st.tuples(st.just("set_all"), _name, st.lists(_value, max_size=3)),
-    st.tuples(st.just("iter")),
-    st.tuples(st.just("len")),
-    st.tuples(st.just("items"), st.booleans()),
-    st.tuples(st.just("keys"), st.booleans()),
-    st.tuples(st.just("values"), st.booleans()),
-    st.tuples(st.just("eq")),
-    st.tuples(st.just("copy"), _name, _value),
-    st.tuples(st.just("update"), st.lists(st.tuples(_name, _value), max_size=3)),
-    st.tuples(st.just("setdefault"), _name, _value),
-    st.tuples(st.just("popitem")),
-    st.tuples(st.just("clear")),
-    st.tuples(st.just("bytes")),
-    st.tuples(st.just("state")),
-)
-
+_NAME_W = [0, 1, 0, 1, 0, 1, 2, 3, 4, 5, 6, 7]      # name indices, weighted towards A/a so that spellings collide
+_KINDS = ["getitem", "get", "contains", "setitem", "setitem", "add", "add", "insert", "delitem", "pop", "get_all",
+          "set_all", "set_all", "iter", "len", "items", "keys", "values", "eq", "copy", "update", "setdefault", "popitem",
+          "clear", "bytes", "state"]
 _tchar = "!#$%&'*+-.^_`|~0123456789abcdefghijklmnopqrstuvwxyzABCDEFGHIJKLMNOPQRSTUVWXYZ"
-_tok = st.one_of(st.sampled_from(["Host", "host", "HOST", "Set-Cookie", "set-cookie", "Content-Length", "X", "x", "a", "A"]),
-                 st.text(alphabet=_tchar, min_size=1, max_size=8))
-_vchar = st.one_of(st.integers(0x21, 0x7E), st.integers(0x21, 0x7E), st.integers(0x80, 0xFF), st.sampled_from([0x20, 0x09, 0x3A, 0x2C]))
+_TOKS = ["Host", "host", "HOST", "Set-Cookie", "set-cookie", "Content-Length", "X", "x", "a", "A"]
+_FVALS = [b"", b"a", b"a: b", b"a,b", b"x  y", b"\xff", b"caf\xc3\xa9", b"a\tb", b":", b"::1", b"\"q\""]
 
 
-def _trim(b):
-    return b.strip(b" \t")
+def _g_name(rnd):
+    return [pick(rnd, _NAME_W), rnd.random() < 0.5]      # (index, pass as bytes?)
 
 
-_fval = st.one_of(st.sampled_from([b"", b"a", b"a: b", b"a,b", b"x  y", b"\xff", b"caf\xc3\xa9", b"a\tb", b":", b"::1", b"\"q\""]),
-                  st.lists(_vchar, max_size=10).map(bytes).map(_trim))
+def _g_value(rnd):
+    return [rnd.randrange(len(VALUES)), rnd.random() < 0.5]
 
 
-def strategy(ctx):
-    ops = st.tuples(st.just("ops"), st.lists(_field, max_size=5), st.lists(_op, min_size=3, max_size=12))
-    ser = st.tuples(st.just("ser"), st.lists(st.tuples(_tok.map(lambda s: s.encode("ascii")), _fval), max_size=8))
-    return st.one_of(ops, ops, ops, ser)
+def _g_op(rnd):
+    k = pick(rnd, _KINDS)
+    if k in ("getitem", "get", "contains", "delitem", "get_all"):
+        return [k, _g_name(rnd)]
+    if k in ("setitem", "add", "copy", "setdefault"):
+        return [k, _g_name(rnd), _g_value(rnd)]
+    if k == "insert":
+        return [k, rnd.randint(-3, 8), _g_name(rnd), _g_value(rnd)]
+    if k == "pop":
+        return [k, _g_name(rnd), rnd.random() < 0.5]
+    if k == "set_all":
+        return [k, _g_name(rnd), [_g_value(rnd) for _ in range(rnd.randint(0, 3))]]
+    if k in ("items", "keys", "values"):
+        return [k, rnd.random() < 0.5]
+    if k == "update":
+        return [k, [[_g_name(rnd), _g_value(rnd)] for _ in range(rnd.randint(0, 3))]]
+    return [k]
+
+
+def _g_fval(rnd):
+    if rnd.random() < 0.3:
+        return pick(rnd, _FVALS)
+    out = bytearray()
+    for _ in range(rnd.randint(0, 10)):
+        r = rnd.random()
+        out.append(rnd.randint(0x21, 0x7E) if r < 0.6 else rnd.randint(0x80, 0xFF) if r < 0.8 else pick(rnd, [0x20, 0x09, 0x3A, 0x2C]))
+    return bytes(out).strip(b" \t")
+
+
+def build(rnd):
+    if rnd.random() < 0.2:
+        return ["ser", [[(pick(rnd, _TOKS) if rnd.random() < 0.5 else text(rnd, _tchar, 1, 8)).encode("ascii"), _g_fval(rnd)]
+                        for _ in range(rnd.randint(0, 8))]]
+    return ["ops", [[pick(rnd, _NAME_W[2:]), rnd.randrange(len(VALUES))] for _ in range(rnd.randint(0, 5))],
+            [_g_op(rnd) for _ in range(rnd.randint(3, 12))]]
+
+
+def run(ctx):
+    runner.fast(ctx, build, check_case, ctx.n(QUICK_N, THOROUGH_N))
 
 
 # ------------------------------------------------------------------ specification helpers (pure Python)
@@ -186,10 +191,10 @@ def check_case(case, ctx):
         return _check_ser(case[1], ctx)
     from mitmproxy.http import Headers  # noqa: F401  (import cost must not count against the deadline)
     try:
-        with _deadline(10.0):
+        with _deadline(2.0):
             _check_ops(case, ctx)
     except _Hang:
-        ctx.fail("hang", "an operation of the history did not terminate within 10 s of CPU time")
+        ctx.fail("hang", "an operation of the history did not terminate within 2 s of CPU time")
 
 
 def _check_ops(case, ctx):
